@@ -27,7 +27,7 @@ FUNCTIONS = ["pox.lib.recoco.recoco.Lock.acquire/release/_do_acquire/_do_release
 BOUNDS = {}
 OUTSIDE = ["real-thread interleavings at bytecode granularity (race-freedom clauses of the property)", "Synchronizer / SyncTask (real locks and threads)",
            "more than 3 tasks / 2 locks / 4 foreign calls"]
-ASSUMPTIONS = ["each foreign-thread call (callLater, schedule) is atomic with respect to cycle()"]
+ASSUMPTIONS = ["each foreign-thread call (callLater, schedule) is atomic with respect to cycle(), except for the modelled preemption inside the wake-up ping of callLater"]
 
 OPS = ['acq', 'try', 'rel', 'zero']
 
@@ -118,14 +118,22 @@ def h_calllater(ctx, plan):
       finally: inside[0] = False
     s.cycle = cyc
     for i, op in enumerate(plan):
-      if op == 'c':
+      if op in 'cC':
         k = n; n += 1
         boom = ctx.bool('raises%d' % k)
         def f(k=k, boom=boom):
           ran.append((k, inside[0]))
           if boom: raise RuntimeError("callable failed")
-        s.callLater(f)
-        ctx.check('call %d: wake-up pinger pinged when work is queued' % k, s._callLaterTask._pinger.flag or len(s._ready) > 0)
+        if op == 'C':
+          # the wake-up ping is a system call (a write to a pipe): the calling thread can be descheduled inside it, and the scheduler
+          # thread then runs to quiescence before callLater() continues.  Interleaving at this I/O boundary is modelled, finer ones are not.
+          from props.C06 import Pinger
+          Pinger.after_ping[0] = lambda: drive(s, 20, fs)
+          try: s.callLater(f)
+          finally: Pinger.after_ping[0] = None
+        else:
+          s.callLater(f)
+        ctx.check('call %d: wake-up pinger pinged when work is queued' % k, s._callLaterTask._pinger.flag or len(s._ready) > 0 or (k, True) in ran)
       elif op == 'w':
         wakes += 1
         s.schedule(st)
@@ -228,12 +236,12 @@ def obligations(tier):
   if thorough:
     lp += [([[(A, 0), (Z, 0), (Rl, 0)]] * 3, 1), ([[(A, 0), (A, 1), (Rl, 0), (Rl, 1)], [(A, 1), (A, 0), (Rl, 1), (Rl, 0)]], 2),
            ([[(T, 0), (Rl, 0)], [(T, 0), (Rl, 0)], [(A, 0), (Rl, 0)]], 1)]
-  cl = ['cy', 'ccy', 'cyc', 'cycy', 'ccyyc', 'wy', 'wwy', 'wyw', 'cwyc', 'wcwy', 'cccy', 'ywwyy']
+  cl = ['cy', 'ccy', 'cyc', 'cycy', 'ccyyc', 'wy', 'wwy', 'wyw', 'cwyc', 'wcwy', 'cccy', 'ywwyy', 'Cy', 'CCy', 'cCy', 'Cyc', 'yCyC', 'CwCy']
   if thorough: cl += ['ccwwyy', 'cycycy', 'wcwcwy', 'ccccy', 'ywywyw']
   import itertools
   idle_plans = [''.join(p) for n in (1, 2, 3) for p in itertools.product('BWCTI', repeat=n) if 'I' in p]
   if thorough: idle_plans += [''.join(p) for p in itertools.product('BWCTI', repeat=4) if p.count('I') >= 1]
-  BOUNDS[tier] = dict(lock_programs=len(lp), calllater_plans=cl, idle_plans="all sequences over {B,W,C,T,I} with an idle, length <= %d" % (4 if thorough else 3), legend="c callLater(symbolic: raises?), y scheduler step, w schedule(sleeping task)")
+  BOUNDS[tier] = dict(lock_programs=len(lp), calllater_plans=cl, idle_plans="all sequences over {B,W,C,T,I} with an idle, length <= %d" % (4 if thorough else 3), legend="c callLater(symbolic: raises?), C callLater preempted inside its wake-up ping (scheduler runs to quiescence there), y scheduler step, w schedule(sleeping task)")
   return [
     Obligation('O1_locks', h_locks, [dict(progs=p, nlocks=n) for p, n in lp], witnesses=('done', 'unheld-release-raised'), max_decisions=20000, mode='int',
                desc='Lock mutual exclusion / hand-off / no lost waiter over task programs'),
